@@ -16,7 +16,7 @@ CLAUSES = {
     "packed": "packed storage (scale_factor; offset for scalars) gives the scaled values",
 }
 BOUNDS = {
-    "quick": "global 7x6 rho grid, N=2 levels (N=3 on one subgrid), legal subgrids {full, [1,6,1,5], [2,6,1,4], [1,5,2,5]}, 1 particle anywhere in the valid region incl. cell edges, any depth; all node values, masks, level depths, scale factors symbolic",
+    "quick": "global 7x6 rho grid, N=2 levels (N=3 on one subgrid), legal subgrids {full, [1,6,1,5], [2,6,1,4], [1,5,2,5]}, 1 particle anywhere in the valid region incl. cell edges, any depth (one scenario with a second particle in another column and depth); all node values, masks, level depths, scale factors symbolic",
     "thorough": "N = 2, 3, 4 levels, subgrid given with negative indices",
 }
 ASSUMES = ["level depths of every column strictly increasing and negative (ROMS layout; C12 derives them)", "add_offset = 0 for u, v as the source documents",
@@ -35,6 +35,7 @@ def scenarios(tier):
             out.append(dict(name=f"interp-N{N}-sub{'full' if sg is None else '_'.join(map(str, sg))}", fn="interp", params=dict(N=N, sub=sg, packed=False), cost=20))
     if q:
         out.append(dict(name="interp-N3-sub2_6_1_4", fn="interp", params=dict(N=3, sub=[2, 6, 1, 4], packed=False), cost=30))
+        out.append(dict(name="interp-N3-two-particles", fn="interp", params=dict(N=3, sub=[1, 6, 1, 5], packed=False, two=True), cost=40))
     out.append(dict(name="packed", fn="interp", params=dict(N=2, sub=[1, 6, 1, 5], packed=True), cost=20))
     out.append(dict(name="linear", fn="linear", params=dict(N=2, sub=[1, 6, 1, 5]), cost=10))
     return out
@@ -148,13 +149,20 @@ def interp(W, p):
     x = W.real("x", i0 + W.frac(1, 2), i1 - 1 - W.frac(1, 2), lo_strict=True, hi_strict=True)
     y = W.real("y", j0 + W.frac(1, 2), j1 - 1 - W.frac(1, 2), lo_strict=True, hi_strict=True)
     zp = W.real("zp", -10, 2000)
+    idx = 0
+    if p.get("two"):
+        # (the free particle is confined to one cell here; position coverage is the business of the one-particle scenarios)
+        W.assume(W.all([W.lt(i0 + 2 - W.frac(2, 5), x), W.lt(x, i0 + 2 + W.frac(2, 5)), W.lt(j0 + 1 - W.frac(2, 5), y), W.lt(y, j0 + 1 + W.frac(2, 5))]), "two-particle scenario: free particle inside one cell")
+        # a second particle in another column at another depth goes first: per-particle arrays (K, A, indices) must not be shared
+        S.append(X=i0 + 1 + W.frac(1, 4), Y=j0 + 1 + W.frac(3, 4), Z=W.real("z_other", 0, 120))
+        idx = 1
     S.append(X=x, Y=y, Z=zp)
     timer.update()
     F.update()
     U, V = F.velocity(S.X, S.Y, S.Z)
-    got_u, got_v = W.tolist(U)[0], W.tolist(V)[0]
-    var_u, var_v = W.tolist(F.variables["u"])[0], W.tolist(F.variables["v"])[0]
-    got_T = W.tolist(F.variables["temp"])[0]
+    got_u, got_v = W.tolist(U)[idx], W.tolist(V)[idx]
+    var_u, var_v = W.tolist(F.variables["u"])[idx], W.tolist(F.variables["v"])[idx]
+    got_T = W.tolist(F.variables["temp"])[idx]
     # ---------------- oracle (global coordinates, physical node locations)
     # the particle's own rho cell; exactly on a cell edge either neighbour is a legitimate "own cell"
     res = []
